@@ -704,8 +704,24 @@ fn looks_like_ref(n: &str) -> bool {
 }
 
 pub(crate) fn gen_spec(rng: &mut Rng, lang: &str, locale: &str) -> Spec {
+    gen_spec_with(rng, lang, locale, false)
+}
+
+/// `pair`: the second sheet is named like the first duplicate candidate of the first sheet (in another
+/// ASCII case half of the time), so that duplicating sheet 0 has to skip a taken candidate
+pub(crate) fn gen_spec_with(rng: &mut Rng, lang: &str, locale: &str, pair: bool) -> Spec {
     let n_sheets = rng.range(2, 5) as usize;
     let mut sheets: Vec<String> = vec![];
+    if pair {
+        let base = ["Data", "My Sheet", "x", "abcdefghijklmnopqrstuvwxyz01234"][rng.below(4) as usize].to_string();
+        let cand: String = if base.chars().count() + 4 > 31 {
+            format!("{} (1)", base.chars().take(27).collect::<String>())
+        } else {
+            format!("{base} (1)")
+        };
+        sheets.push(base);
+        sheets.push(if rng.chance(1, 2) { cand.to_ascii_lowercase() } else { cand });
+    }
     while sheets.len() < n_sheets {
         let c = rng.pick(SHEET_POOL).to_string();
         if !sheets.iter().any(|s| s.to_uppercase() == c.to_uppercase()) {
@@ -798,7 +814,7 @@ pub(crate) fn gen_spec(rng: &mut Rng, lang: &str, locale: &str) -> Spec {
                         if n.to_lowercase() == "lam" {
                             format!("=lam({})", rf(rng, &mut prefix))
                         } else {
-                            format!("={sum}({n})+{}", rf(rng, &mut prefix))
+                            format!("={sum}({n}{sep}{})+{n}", rf(rng, &mut prefix))
                         }
                     }
                 }
@@ -850,7 +866,12 @@ fn gen_ops(ctx: &Ctx, sink: &mut dyn FnMut(String)) {
     };
     emit(&w, &Op::Rename(1, "Renamed".into()), "m", sink);
     emit(&w, &Op::Dup(0), "u", sink);
-    for _ in 0..n {
+    for k in 0..n {
+        if k % 25 == 0 {
+            // duplicate a sheet whose first candidate name is taken
+            let sp = gen_spec_with(&mut rng, "en", "en", true);
+            emit(&sp, &Op::Dup(0), if k % 50 == 0 { "m" } else { "u" }, sink);
+        }
         let sp = gen_spec(&mut rng, "en", "en");
         let ns = sp.sheets.len() as u64;
         let i = rng.below(ns + 1) as u32; // sometimes out of range
